@@ -284,8 +284,9 @@ func c02Subsets(def *refcodec.Msg, thorough bool, fn func(mask uint64)) {
 
 func init() {
 	p := &core.Property{
-		ID:   "C02",
-		Rule: "well-formed messages in decoder normal form (identifiers from the table, declared length = content length within bounds, header view = body header, array octets beyond Len zero) for all 45 definitions: presence subsets (all 2^k for k<=8 optionals, thorough k<=12; otherwise none/all/singles/pairs/later-without-earlier/all-but-one) × length choice {min, max, interior} × content shapes; plus random plans. Encoded and decoded through Encode<Msg>/Decode<Msg>, PlainNasEncode/Decode and Gmm/GsmMessageEncode/Decode; reflect.DeepEqual with the original. Non-trivial = some optional absent while a later one is present, or an interior length, or non-pattern content; distinct by message and wire bytes.",
+		ID:         "C02",
+		Interleave: []string{"roundtrip"},
+		Rule:       "well-formed messages in decoder normal form (identifiers from the table, declared length = content length within bounds, header view = body header, array octets beyond Len zero) for all 45 definitions: presence subsets (all 2^k for k<=8 optionals, thorough k<=12; otherwise none/all/singles/pairs/later-without-earlier/all-but-one) × length choice {min, max, interior} × content shapes; plus random plans. Encoded and decoded through Encode<Msg>/Decode<Msg>, PlainNasEncode/Decode and Gmm/GsmMessageEncode/Decode; reflect.DeepEqual with the original. Non-trivial = some optional absent while a later one is present, or an interior length, or non-pattern content; distinct by message and wire bytes.",
 		Assumptions: []string{
 			"well-formedness is exactly the statement's precondition; optional elements carry the table identifier in Iei (type-1: in the octet's high nibble)",
 			"bounds come from spec/messages.json",
@@ -536,8 +537,9 @@ func c03FixedPoint(c *core.Ctx, k *core.Case) {
 
 func init() {
 	p := &core.Property{
-		ID:   "C03",
-		Rule: "inputs: reference renderings of plans in all nine presence patterns (incl. reversed order, duplicates, interleaved duplicates), canonical plans (flagged canonical by construction), the byte-level mutations of C01 (unknown identifiers, type-1 look-alikes, splices, flips…), and the repository samples with mutations; every input accepted by PlainNasDecode is re-encoded, re-decoded and re-encoded. Non-trivial = accepted and non-canonical, or canonical with at least one optional element; distinct by bytes.",
+		ID:         "C03",
+		Interleave: []string{"fixedpoint"},
+		Rule:       "inputs: reference renderings of plans in all nine presence patterns (incl. reversed order, duplicates, interleaved duplicates), canonical plans (flagged canonical by construction), the byte-level mutations of C01 (unknown identifiers, type-1 look-alikes, splices, flips…), and the repository samples with mutations; every input accepted by PlainNasDecode is re-encoded, re-decoded and re-encoded. Non-trivial = accepted and non-canonical, or canonical with at least one optional element; distinct by bytes.",
 		Assumptions: []string{
 			"canonicity is known from the generator (known elements only, each once, in table order, lengths in bounds), never inferred from the library",
 		},
